@@ -128,6 +128,18 @@ def build():
         r"None => \{ if node\.rrsets\(\)\.is_empty\(self\.zone\.new_version\) \{ Some\(true\) \} else \{ None \} \} _ => None,", cn, "check_nx_domain decision")
     one(r"if new_nxdomain \{ node\.update_special\( self\.zone\.new_version, Some\(Special::NxDomain\), \); \} else \{ node\.update_special\(self\.zone\.new_version, None\); \}", cn, "check_nx_domain update")
     defs.append(("nx_marker_follows_emptiness", "bool", "true"))
+    # ---- ZoneVersions (clean_versions has no caller; modelled for the marker discipline)
+    zv = impl_body(ws, r"impl ZoneVersions\s*\{")
+    cv = flat(fn_body(zv, "clean_versions"))
+    m = one(r"^let mut max_version = None; self\.all\.retain\(\|item\| \{ if item\.1\.strong_count\(\) (>|>=|==|!=|<|<=) (\d+) \{ true \} else \{ match max_version \{ Some\(old\) => \{ if item\.0 (>|>=|<|<=) old \{ max_version = Some\(item\.0\) \} \} None => max_version = Some\(item\.0\), \} false \} \}\); max_version$", cv, "ZoneVersions::clean_versions")
+    defs.append(("clean_alive_cmp_op", "N", "%d%%N" % CMP[m.group(1)]))
+    defs.append(("clean_alive_bound", "N", "%d%%N" % num(m.group(2))))
+    defs.append(("clean_max_cmp_op", "N", "%d%%N" % CMP[m.group(3)]))
+    one(r"^let marker = Arc::new\(VersionMarker\); .*?self\.current = \(version, marker\.clone\(\)\); marker$", flat(fn_body(zv, "update_current")), "ZoneVersions::update_current makes a new marker")
+    one(r"self\.all\.push\(\(version, Arc::downgrade\(&marker\)\)\)$", flat(fn_body(zv, "push_version")), "ZoneVersions::push_version appends a weak marker")
+    one(r"^let marker = Arc::new\(VersionMarker\); let weak_marker = Arc::downgrade\(&marker\); ZoneVersions \{ current: \(Version::default\(\), marker\), all: vec!\[\(Version::default\(\), weak_marker\)\], \}$", flat(fn_body(ws, "default", after="impl Default for ZoneVersions")), "ZoneVersions::default")
+    one(r"let marker = self \.published_versions \.write\(\) \.update_current\(self\.new_version\); self\.published_versions \.write\(\) \.push_version\(self\.new_version, marker\);", pb, "publish: update_current then push_version of the same version and marker")
+
     # ---- does a WriteNode check that its session is still the live one?
     one(r"new_version: self\.new_version,", cl, "WriteZone::clone keeps the version of the handle")
     n_guard = len(re.findall(r"\bfn writable\b", wn))
@@ -177,6 +189,12 @@ def build():
     one(r"node\.update_special\( self\.zone\.new_version, Some\(Special::Cut\(cut\)\), \);", mzc, "make_zone_cut writes at new_version")
     mcn = flat(fn_body(wn, "make_cname"))
     one(r"node\.update_special\( self\.zone\.new_version, Some\(Special::Cname\(cname\)\), \);", mcn, "make_cname writes at new_version")
+    one(r"^self\.children \.read\(\) \.values\(\) \.for_each\(\|item\| item\.remove_all\(version\)\)$", flat(fn_body(nc, "remove_all")), "NodeChildren::remove_all visits every child")
+    one(r"^for child in self\.children\.read\(\)\.iter\(\) \{ \(op\)\(walk\.clone\(\), child\) \}$", flat(fn_body(nc, "walk")), "NodeChildren::walk visits every child")
+    one(r"^let lock = self\.children\.upgradable_read\(\); if let Some\(node\) = lock\.get\(label\) \{ return op\(node, false\); \} let mut lock = RwLockUpgradableReadGuard::upgrade\(lock\); lock\.insert\(label\.into\(\), Default::default\(\)\); let lock = RwLockWriteGuard::downgrade\(lock\); op\(lock\.get\(label\)\.unwrap\(\), true\)$", flat(fn_body(nc, "with_or_default")), "NodeChildren::with_or_default")
+    wk = flat(fn_body(rs, "walk", after="impl ReadableZone for ReadZone"))
+    one(r"let walk = WalkState::new\(op, self\.apex\.name\(\)\.clone\(\)\); self\.query_rrsets\(self\.apex\.rrsets\(\), Rtype::ANY, walk\.clone\(\)\); self\.query_below_apex\(Label::root\(\), iter::empty\(\), Rtype::ANY, walk\);$", wk, "ReadZone::walk: apex RRsets, then every child")
+    one(r"if walk\.enabled\(\) \{ children\.walk\(walk, \|walk, \(label, node\)\| \{ walk\.push\(\*label\); self\.query_node\( node, core::iter::empty\(\), qtype, walk\.clone\(\), \); walk\.pop\(\); \}\); return NodeAnswer::no_data\(\); \}", qc, "query_children in walk mode visits every child node")
     rd2 = flat(fn_body(rs, "query", after="impl ReadableZone for ReadZone"))
     one(r"self\.query_below_apex\(label, qname, qtype, WalkState::DISABLED\) \} else \{ self\.query_rrsets\(self\.apex\.rrsets\(\), qtype, WalkState::DISABLED\) \}", rd2, "ReadZone::query dispatch")
     qr = flat(fn_body(rz, "query_rrsets"))
